@@ -30,7 +30,46 @@ def norm_res(r, cmp):
         out['path'] = [p for p in (r.get('path') or []) if not p.startswith('{oneof[')]
     return out
 
+def _d13_shape(t, enclosing=()):
+    """Does the schema contain the recorded non-terminating shape (known finding D13)? An object with a
+    property that refers back to the object itself or to an enclosing object, where following the reference
+    need not consume input: the property declares a default, or the object has exactly one property (the
+    single-property shorthand)."""
+    if not isinstance(t, dict):
+        return False
+    k = t.get('t')
+    if k == 'scope':
+        objs = {o[0]: o[1] for o in t.get('objs') or []}
+        return any(_d13_obj(o, objs, ()) for o in objs.values())
+    if k == 'obj':
+        return _d13_obj(t, {}, enclosing)
+    for key in ('item', 'k', 'v'):
+        if _d13_shape(t.get(key), enclosing):
+            return True
+    for m in t.get('members') or []:
+        if _d13_shape(m[1], enclosing):
+            return True
+    return False
+
+def _d13_obj(o, objs, enclosing):
+    props = o.get('props') or []
+    here = enclosing + (o.get('id'),)
+    for name, p in props:
+        ty = p.get('ty') or {}
+        if ty.get('t') == 'ref' and ty.get('id') in here and (p.get('default') is not None or len(props) == 1):
+            return True
+        if ty.get('t') == 'ref' and ty.get('id') in objs and ty.get('id') not in here:
+            if _d13_obj(objs[ty['id']], objs, here):
+                return True
+        elif _d13_shape(ty, here):
+            return True
+    return False
+
+# cases skipped by the rule below (printed by the command line form, kept for the evidence)
+SKIPPED_ORDER_DEPENDENT = 0
+
 def compare(cases_path, go_path, lean_path, limit=20):
+    global SKIPPED_ORDER_DEPENDENT
     diffs = []
     n = 0
     with open(cases_path) as fc, open(go_path) as fg, open(lean_path) as fl:
@@ -41,12 +80,19 @@ def compare(cases_path, go_path, lean_path, limit=20):
             l = json.loads(ll)
             cmp = c.get('cmp', 'class')
             if norm_res(g, cmp) != norm_res(l, cmp):
+                # The recorded non-termination (known finding D13): on a schema of that shape the model does not
+                # terminate, and whether the implementation recurses for ever or reports another fault of the
+                # input first depends on the order in which Go walks the input map. Not a divergence.
+                if l.get('r') == 'fuel' and g.get('r') in ('err', 'ok') and c.get('op') in ('U', 'C', 'V', 'S') \
+                        and _d13_shape(c.get('schema')):
+                    SKIPPED_ORDER_DEPENDENT += 1
+                    continue
                 diffs.append({'case': c, 'go': g, 'lean': l})
     return n, diffs
 
 if __name__ == '__main__':
     n, diffs = compare(sys.argv[1], sys.argv[2], sys.argv[3])
-    print(f"{n} cases, {len(diffs)} differences")
+    print(f"{n} cases, {len(diffs)} differences" + (f" ({SKIPPED_ORDER_DEPENDENT} map-order-dependent cases of the known non-terminating shape skipped)" if SKIPPED_ORDER_DEPENDENT else ""))
     for d in diffs[:int(sys.argv[4]) if len(sys.argv) > 4 else 10]:
         c = d['case']
         print(json.dumps({'id': c['id'], 'op': c['op'], 'note': c.get('note'), 'schema': c['schema'], 'v': c.get('v'), 'schema2': c.get('schema2')})[:1500])
